@@ -45,6 +45,7 @@ class Pool:
         self.need_hash = need_hash
         self.classes = []       # list of lists of (text, version), strictly increasing
         self.rejected = []      # (text, reason)
+        self.unrankable = []    # (text, version, other text, other version): the six real operators contradict each other
         self.hashable = True
 
     def insert(self, text, v):
@@ -75,9 +76,11 @@ class Pool:
                 sign = -1 if same < i else (1 if same > i else 0)
             else:
                 sign = -1 if pos <= i else 1
-            for _, w in cl:
+            for wt, w in cl:
                 if not consistent(v, w, sign, self.need_hash):
                     self.rejected.append((text, "inconsistent"))
+                    if not consistent(v, w, sign, False):
+                        self.unrankable.append((text, v, wt, w))
                     return False
         if same is not None:
             if all(t != text for t, _ in self.classes[same]):
@@ -144,6 +147,16 @@ def build_pool(name, rng, size=40, respell=0.3, need_hash=True):
                     p.insert(s4, S.make(name, s4))
                 except Exception:  # noqa: BLE001
                     pass
+        if rng.random() < 0.3:
+            # a near-equal neighbour: another spelling of the same version with one numeric field moved by a little
+            # (where the operators of a scheme contradict each other, it is between versions like these)
+            try:
+                from harness.scheme_corr import bump_number
+                s5 = bump_number(S.RESPELL[name](s, rng), rng)
+                if s5 != s:
+                    p.insert(s5, S.make(name, s5))
+            except Exception:  # noqa: BLE001
+                pass
         if rng.random() < respell:
             # other spellings of the SAME version (up to two), found among a few respellings; a respelling that
             # turns out to be another version is inserted as such
